@@ -18,6 +18,7 @@ The extractor is strict: a write-site shape it cannot attribute raises."""
 from __future__ import annotations
 
 import ast
+import re
 from pathlib import Path
 from typing import Dict, List, Optional, Set, Tuple
 
@@ -42,6 +43,17 @@ def _files() -> List[Path]:
             continue
         out.append(f)
     return out
+
+
+def _walk_same_scope(node: ast.AST):
+    """ast.walk that does not enter nested function / class definitions or lambdas"""
+    stack = [node]
+    while stack:
+        n = stack.pop()
+        yield n
+        for c in ast.iter_child_nodes(n):
+            if not isinstance(c, (ast.FunctionDef, ast.AsyncFunctionDef, ast.ClassDef, ast.Lambda)):
+                stack.append(c)
 
 
 def _modname(f: Path) -> str:
@@ -135,7 +147,8 @@ class Inventory:
         self.pyd_defaults: List[Tuple[str, str]] = []
 
     def entry(self, name: str, kind: str, mutable: bool, how: str):
-        e = self.entries.setdefault(name, {"kind": kind, "mutable": mutable, "import_writes": [], "writers": set(), "readers": set()})
+        e = self.entries.setdefault(name, {"kind": kind, "mutable": mutable, "import_writes": [], "writers": set(), "readers": set(),
+                                           "uncond_writers": set(), "calls_before_write": {}})
         e["import_writes"].append(how)
         e["mutable"] = e["mutable"] or mutable
         return e
@@ -235,12 +248,37 @@ def build() -> Inventory:
             import_time = fn.name in IMPORT_TIME_FUNCS
             encl = cls_stack[-1] if cls_stack else None
 
-            def record_write(entry_name: str):
+            # statements that run whenever the function runs to completion: direct children of the body that are not preceded by a
+            # statement containing `return` (a write nested in if / for / while / try / with / match is CONDITIONAL)
+            uncond: List[ast.stmt] = []
+            for st in fn.body:
+                uncond.append(st)
+                if any(isinstance(x, ast.Return) for x in _walk_same_scope(st)):
+                    break
+
+            def calls_before(site: ast.stmt) -> List[str]:
+                out: List[str] = []
+                for st in uncond:
+                    if st is site:
+                        break
+                    for x in _walk_same_scope(st):
+                        if isinstance(x, ast.Call):
+                            c = ast.unparse(x.func)
+                            c = re.sub(r"\(.*\)", "()", c, flags=re.S)
+                            if c not in out:
+                                out.append(c)
+                return out
+
+            def record_write(entry_name: str, site: Optional[ast.AST] = None):
                 e = inv.entries[entry_name]
                 if import_time:
                     e["import_writes"].append(f"{fq}")
                 else:
                     e["writers"].add(fq)
+                    top = next((st for st in uncond if st is site or (isinstance(st, ast.Expr) and st.value is site)), None)
+                    if top is not None:
+                        e["uncond_writers"].add(fq)
+                        e["calls_before_write"].setdefault(fq, calls_before(top))
 
             def target_entry(t: ast.AST) -> Optional[str]:
                 """entry written when `t` (an Attribute/Subscript/Name chain) is the target of a store / mutator call."""
@@ -307,17 +345,17 @@ def build() -> Inventory:
                             g = global_entry(tt.id)
                             if g is None:
                                 raise ValueError(f"{fq}: `global {tt.id}` rebinding of a name that is not in the inventory")
-                            record_write(g)
+                            record_write(g, node)
                             continue
                         en = target_entry(tt)
                         if en:
-                            record_write(en)
+                            record_write(en, node)
                 if isinstance(node, ast.Call) and isinstance(node.func, ast.Attribute):
                     f = node.func
                     if f.attr in MUTATORS:
                         en = target_entry(ast.Subscript(value=f.value, slice=ast.Constant(0), ctx=ast.Store()))
                         if en:
-                            record_write(en)
+                            record_write(en, node)
                     # global RNG use
                     root = ast.unparse(f.value)
                     if root == "random":
@@ -422,7 +460,9 @@ def emit() -> str:
              "def fns : List String := ["]
     lines.append(",\n".join(f"  {_s(f)}" for f in fns) + "]")
     lines += ["", "structure Entry where", "  name : String", "  kind : String", "  mutableValue : Bool",
-              "  importWrites : List String", "  writers : List Nat", "  readers : List Nat", "  deriving Repr, DecidableEq", "",
+              "  importWrites : List String", "  writers : List Nat", "  readers : List Nat",
+              "  /-- writers with a write site that is a top-level statement of the function, not after a `return` (UNCONDITIONAL write) -/",
+              "  uncondWriters : List Nat", "  deriving Repr, DecidableEq", "",
               "/-- every class-level attribute and module-level mutable object, with the functions (indices into `fns`) that write it",
               "at run time and, for those that are written at run time, the functions that read it -/",
               "def entries : List Entry := ["]
@@ -433,7 +473,7 @@ def emit() -> str:
             continue
         readers = e["readers"] if e["writers"] else []
         rows.append(f"  ⟨{_s(n)}, {_s(e['kind'])}, {'true' if e['mutable'] else 'false'}, {_l(sorted(set(e['import_writes'])))}, "
-                    f"{ids(e['writers'])}, {ids(readers)}⟩")
+                    f"{ids(e['writers'])}, {ids(readers)}, {ids(e['uncond_writers'])}⟩")
     lines.append(",\n".join(rows) + "]")
     loggers = [n for n in names if inv.entries[n]["kind"] == "module-logger"]
     bad_loggers = [n for n in loggers if inv.entries[n]["writers"]]
@@ -442,6 +482,16 @@ def emit() -> str:
               "/-- uses of the process-global generators: (generator, function index, call) -/",
               "def rngUses : List (String × Nat × String) := ["]
     lines.append(",\n".join(f"  ({_s(g)}, {fid[f]}, {_s(c)})" for g, f, c in sorted(set(inv.rng))) + "]")
+    lines += ["", "/-- for every unconditional run-time write (entry, writer function): the calls the function makes in the statements BEFORE the write",
+              "(as written, and the last identifier of each: the name of the function / method called) -/",
+              "def callsBeforeWrite : List (String × String × List String × List String) := ["]
+
+    def last_ident(c: str) -> str:
+        return re.sub(r"\(\)", "", c).split(".")[-1]
+    lines.append(",\n".join(f"  ({_s(n)}, {_s(f)}, {_l(c)}, {_l([last_ident(x) for x in c])})" for n in runtime
+                            for f, c in sorted(inv.entries[n]["calls_before_write"].items())) + "]")
+    lines += ["", "/-- the last identifier (function / method name) of every entry of `fns`, same order -/",
+              "def fnIdents : List String := " + _l([f.split(":")[-1].split(".")[-1] for f in fns])]
     lines += ["", "def globalStatements : List (String × String) := [" + ", ".join(f"({_s(f)}, {_s(n)})" for f, n in sorted(set(inv.global_stmts))) + "]",
               "", "/-- pydantic fields with a mutable or aliasing default (copied per instance by pydantic; asserted by the rig) -/",
               "def pydanticMutableDefaults : List (String × String) := ["]
